@@ -162,6 +162,43 @@ def run_job(job):
     return job
 
 
+SOLVERS = {'z3-4.8.12': ['/usr/bin/z3'], 'z3-5.1': ['z3-new'], 'cvc5-1.0': ['cvc5', '--fp-exp']}
+
+
+def run_lemma(job):
+    """one SMT-LIB lemma on every available back end; any '(error' or disagreement => inconclusive"""
+    t0 = time.time()
+    res = {}
+    for name in job['solvers']:
+        t1 = time.time()
+        try:
+            p = subprocess.run(SOLVERS[name] + [job['path']], capture_output=True, text=True, timeout=job['timeout'])
+            out = p.stdout.strip()
+            ans = 'error' if '(error' in out or not out else out.split()[0]
+        except subprocess.TimeoutExpired:
+            ans = 'timeout'
+        res[name] = (ans, round(time.time() - t1, 2))
+    job['res'] = res
+    job['wall'] = time.time() - t0
+    return job
+
+
+def lemma_jobs(prop, hmod, tier):
+    jobs = []
+    lem = getattr(hmod, 'LEMMAS', [])
+    if not lem:
+        return jobs
+    wdir = os.path.join(WORK, prop, 'lemmas')
+    os.makedirs(wdir, exist_ok=True)
+    subprocess.run([PY, ROOT + '/lemmas/gen.py', wdir], check=True)
+    for l in lem:
+        if l.get('tier', 'quick') == 'thorough' and tier != 'thorough':
+            continue
+        jobs.append(dict(lemma=l, path=os.path.join(wdir, l['file'] + '.smt2'), solvers=l['solvers'],
+                         timeout=l['timeout'][1 if tier == 'thorough' else 0]))
+    return jobs
+
+
 def expand(prop, mod, hmod, tier, only=None):
     known = load_known(prop)
     jobs = []
@@ -227,8 +264,11 @@ def main(prop, mod, tier='quick', only=None, extra_evidence=None, pre_results=No
                 keep.append(j)
         jobs = keep
     workers = int(os.environ.get('VERIF_JOBS', '16'))
+    ljobs = [] if only else lemma_jobs(prop, hmod, tier)
     with cf.ThreadPoolExecutor(workers) as ex:
+        lfut = [ex.submit(run_lemma, j) for j in ljobs]
         done = list(ex.map(run_job, jobs))
+        ldone = [f.result() for f in lfut]
 
     records = []
     violations = []
@@ -300,6 +340,24 @@ def main(prop, mod, tier='quick', only=None, extra_evidence=None, pre_results=No
             except Exception as e:  # noqa
                 rec['known_replay_error'] = repr(e)
         rec['status'] = status
+        records.append(rec)
+    for j in ldone:
+        l = j['lemma']
+        answers = {k: v[0] for k, v in j['res'].items()}
+        good = [k for k, v in answers.items() if v == l['expect']]
+        bad = [k for k, v in answers.items() if v in ('sat', 'unsat') and v != l['expect']]
+        n_ob += 1
+        rec = dict(obligation=l['id'], kind='smt-lemma', file=l['file'] + '.smt2', expect=l['expect'],
+                   solvers=j['res'], wall_s=round(j['wall'], 1), statement=l['statement'])
+        if bad:
+            rec['status'] = 'harness-error'
+            harness_errors.append((l['id'], 'lemma answered %r, expected %s' % (answers, l['expect'])))
+        elif good:
+            rec['status'] = 'discharged'
+            n_dis += 1
+            n_eval += len(good)
+        else:
+            rec['status'] = 'inconclusive'
         records.append(rec)
     for j in skipped:
         records.append(dict(obligation=j['ob']['id'], case=list(j['case']), status='skipped: layout',
